@@ -1,0 +1,15 @@
+//go:build verif
+
+package ziptree
+
+// VerifRankSource, when set, replaces the rank drawn by insert. Verification harness only (build tag verif):
+// it lets the correspondence run drive rank ties, which rand.Uint32 produces with probability 2^-32.
+// Not safe for concurrent use with trees that should keep random ranks.
+var VerifRankSource func() uint32
+
+func verifRank(drawn uint32) uint32 {
+	if VerifRankSource != nil {
+		return VerifRankSource()
+	}
+	return drawn
+}
